@@ -134,7 +134,7 @@ def documented (l r : Cls) (op : BOp) : Spec :=
   else if l.isDQ && r.isDQ then
     (match op with
      | .mul => if l == r then .result (.cls l) else .unspecified
-     | .add | .sub => if l == .DQ && r == .DQ then .result (.cls .DQ) else .unspecified
+     | .add | .sub => .result (.cls .DQ)
      | _ => .unspecified)
   else if family l != family r then .mustRaise
   else .unspecified
